@@ -238,6 +238,24 @@ pub fn gen(tier: &str, seed: u64, out: &mut dyn FnMut(Value)) {
     ] {
         out(json!({"op": "load_text", "rules": t, "tag": "references that cannot be honoured", "nt": true}));
     }
+    // layered dependencies: every rule of a layer uses every rule of the layer below (a few dozen rules; the number of
+    // paths through them is astronomical, the number of rules and references is not) - compiling comes back
+    for (layers, width) in [(12usize, 2usize), (20, 2), (30, 2), (40, 2), (16, 3), (12, 4)] {
+        let mut y = String::new();
+        for l in 0..layers {
+            for k in 0..width {
+                y.push_str(&format!("---\nname: l{l}k{k}\ntype: dependency\nmatches:\n"));
+                if l == 0 {
+                    y.push_str("  $a: .x == '1'\n");
+                } else {
+                    for j in 0..width {
+                        y.push_str(&format!("  $d{j}: rule(l{}k{j})\n", l - 1));
+                    }
+                }
+            }
+        }
+        out(json!({"op": "load_text", "rules": y, "tag": "layered dependencies", "nt": true}));
+    }
     // aliases: to an anchor of the same document (fine), of an earlier document, of no document at all, in every position
     // a value can take - a reader must come back with rules or an error, whatever the YAML library does after it
     // reported an error
